@@ -29,8 +29,14 @@ class Summaries:
         n = strip_generics(name)
         if n.endswith('u128::MAX') or n == 'core::num::<impl u128>::MAX':
             return U128_MAX
-        if n.endswith('u64::MAX'):
+        if n.endswith('u64::MAX') or n == 'core::num::<impl u64>::MAX':
             return U64_MAX
+        m = re.search(r'(?:^|::|<impl )([ui])(8|16|32|64|128|size)>?::(MAX|MIN)$', name.strip())
+        if m:
+            bits = 64 if m.group(2) == 'size' else int(m.group(2))
+            if m.group(1) == 'u':
+                return (2 ** bits - 1) if m.group(3) == 'MAX' else 0
+            return (2 ** (bits - 1) - 1) if m.group(3) == 'MAX' else -(2 ** (bits - 1))
         if n.endswith('Uint128::MAX'):
             return U128(U128_MAX)
         if n.endswith('Decimal::MAX'):
@@ -831,6 +837,27 @@ class Summaries:
             I.store(st, args[1], VecV((), o.elem))
             yield st, UNIT
         A('Vec::append', r'Vec::append$', h_vec_append)
+
+        def h_vec_truncate(st, fn, callee, args, dty):
+            v = I.load(st, args[0])
+            n = args[1]
+            if not isinstance(v, VecV):
+                raise Gap('truncate of a non-vector value')
+            if not isinstance(n, int):
+                # symbolic length: decide against the (concrete) number of elements
+                for st2, t in I.truth(st, n >= len(v.items)):
+                    if t:
+                        yield st2, UNIT
+                    else:
+                        for k in range(len(v.items)):
+                            st3 = st2.clone()
+                            st3.add(n == k)
+                            I.store(st3, args[0], VecV(v.items[:k], v.elem))
+                            yield st3, UNIT
+                return
+            I.store(st, args[0], VecV(v.items[:n], v.elem))
+            yield st, UNIT
+        A('Vec::truncate', r'Vec::truncate$', h_vec_truncate)
         A('len', r'Vec::len$|core::slice::<impl \[.*\]>::len$|^core::slice::len$', simple(lambda st, v: I.length(I.val(st, v))))
         A('is_empty', r'Vec::is_empty$|core::slice::<impl \[.*\]>::is_empty$|^core::slice::is_empty$',
           simple(lambda st, v: I.length(I.val(st, v)) == 0))
